@@ -573,6 +573,7 @@ impl Gen {
             };
             let l = if is_str {
                 match aop {
+                    AOp::Add if self.rng.chance(120) => Val::Str(String::new()),
                     AOp::Add if self.rng.chance(850) => Val::Str(self.filler(2, None)),
                     AOp::Div => Val::Int(0),
                     _ => Val::Int(1),
@@ -603,7 +604,10 @@ impl Gen {
         if r < 35 {
             return Cond::Const(self.rng.chance(500));
         }
-        let lit = if !t.rows.is_empty() && self.rng.chance(700) {
+        let lit = if c.is_str() && self.rng.chance(40) {
+            // the empty string is a string literal, not null
+            Val::Str(String::new())
+        } else if !t.rows.is_empty() && self.rng.chance(700) {
             t.rows[self.rng.usize_below(t.rows.len())][ci].clone()
         } else if self.rng.chance(100) {
             Val::Null
@@ -970,12 +974,19 @@ impl Gen {
             if !self.alphabet.is_empty() && self.rng.chance(300) {
                 s.push(*self.rng.pick(&self.alphabet));
             } else {
-                s.push(*self.rng.pick(&['a', 'b', ' ', 'Z', '0', ';', ',', '{', '}']));
+                s.push(*self.rng.pick(&['a', 'b', ' ', 'Z', '0', ';', ',', '{', '}', '?']));
             }
         }
         if self.rng.chance(40) {
             // deliberately unrepresentable in some pages
             s.push(*self.rng.pick(&['☃', '€', 'ж', '漢']));
+        }
+        if self.rng.chance(12) && !s.is_empty() {
+            // DEL: the last of the 128 ASCII characters, one byte in every page
+            let at = self.rng.usize_below(s.chars().count() + 1);
+            let mut cs: Vec<char> = s.chars().collect();
+            cs.insert(at, '\u{7f}');
+            s = cs.into_iter().collect();
         }
         if self.rng.chance(30) {
             for lead in ["ÿþ", "þÿ", "ï»¿"] {
@@ -1249,7 +1260,7 @@ impl Gen {
                 }
                 _ => {
                     bad[ci] = match (&c.category, c.is_str()) {
-                        (Some(cat), true) if cat == "Identifier" => Val::Str("has space".into()),
+                        (Some(cat), true) if cat == "Identifier" => Val::Str(self.rng.pick(&["has space", "Gr\u{f6}\u{df}e", "Item\u{663}", "a\u{e9}"]).to_string()),
                         (Some(cat), true) if cat == "UpperCase" => Val::Str("lower".into()),
                         (Some(cat), true) if cat == "LowerCase" => Val::Str("UPPER".into()),
                         (_, true) if !c.enums.is_empty() => match c.enums.iter().find(|e| !value_valid(c, &Val::Str(e.to_string()))) {
@@ -1324,6 +1335,31 @@ impl Gen {
                 self.model.apply_create_table(&name, &cols);
                 self.push(Op::CreateTable { name, cols });
             }
+        }
+        // ... and a column whose name is another column's name qualified with the table's own
+        // name (the way joined rows name their columns), with different rules
+        self.table_seq += 1;
+        let m = format!("Med{}", self.table_seq);
+        let mut narrow = ColSpec::new(&format!("{}.Size", m), CType::I16).nullable();
+        narrow.range = Some((0, 10));
+        let cols = vec![ColSpec::new("K", CType::I16).key(), ColSpec::new("Size", CType::I32).nullable(), narrow];
+        if self.model.expect_create_table(&m, &cols) == Expect::Ok {
+            self.model.apply_create_table(&m, &cols);
+            self.push(Op::CreateTable { name: m.clone(), cols });
+            let rows = vec![vec![Val::Int(1), Val::Int(70000), Val::Int(3)], vec![Val::Int(2), Val::Null, Val::Int(10)]];
+            if let Ok(nt) = self.model.plan_insert(&m, &rows) {
+                self.model.tables.insert(m.clone(), nt);
+                self.push(Op::Insert { table: m.clone(), rows });
+            }
+            // valid for "Size", not for "<table>.Size": must be refused
+            let sets = vec![(format!("{}.Size", m), Val::Int(*self.rng.pick(&[500, 11, 70000])))];
+            self.push(Op::Update { table: m.clone(), sets, cond: None });
+            let sets = vec![("Size".to_string(), Val::Int(500))];
+            if let Ok(nt) = self.model.plan_update(&m, &sets, &None) {
+                self.model.tables.insert(m.clone(), nt);
+                self.push(Op::Update { table: m, sets, cond: None });
+            }
+            self.push(Op::Observe);
         }
     }
 
@@ -1843,7 +1879,7 @@ impl Gen {
         }
         if self.handles_open.is_empty() {
             let p = self.profile;
-            if matches!(p, Profile::Clean | Profile::Crash) && self.rng.chance(6) {
+            if matches!(p, Profile::Clean | Profile::Crash | Profile::Reject) && self.rng.chance(6) {
                 self.macro_dotted_names();
                 return;
             }
@@ -2115,7 +2151,12 @@ pub fn gen_foreign_spec_ext(rng: &mut Prng, big: bool, wide_ok: bool) -> Foreign
     }
     if rng.chance(500) {
         let langs: Vec<String> = (0..rng.below(3)).map(|_| rng.pick(&[1033u16, 0, 1041]).to_string()).collect();
-        props.push((7, FProp::Str(format!("{};{}", rng.pick(&["x64", "Intel", ""]), langs.join(",")))));
+        if rng.chance(200) {
+            // just a platform, no separator (other tools write that)
+            props.push((7, FProp::Str(rng.pick(&["Intel", "x64", "Arm64"]).to_string())));
+        } else {
+            props.push((7, FProp::Str(format!("{};{}", rng.pick(&["x64", "Intel", ""]), langs.join(",")))));
+        }
     }
     if rng.chance(500) {
         let u = uuid::Uuid::from_u128(((rng.next_u64() as u128) << 64) | rng.next_u64() as u128);
@@ -2274,7 +2315,12 @@ pub fn generate(property: &str, profile: Profile, seed: u64, run: u64) -> Trace 
     let ptype = *rng.pick(&[PType::Installer, PType::Installer, PType::Patch, PType::Transform]);
     let big_script = profile == Profile::Script && run % 6 == 4;
     let (init, model) = if profile == Profile::Foreign || (profile == Profile::Corrupt && rng.chance(300)) || (profile == Profile::ReadOnly && rng.chance(300)) || (profile == Profile::Reject && rng.chance(250)) || (profile == Profile::Schema && rng.chance(150)) || big_script {
-        let spec = gen_foreign_spec_ext(&mut rng, big_script, profile == Profile::Corrupt);
+        let mut spec = gen_foreign_spec_ext(&mut rng, big_script, profile == Profile::Corrupt);
+        if profile == Profile::Script {
+            // every fault plan of a script re-encodes, re-opens and re-decodes the start image:
+            // 65,600 padding entries there cost minutes per script and add nothing
+            spec.pool_pad = 0;
+        }
         cp_set = vec![if spec.codepage == 0 { 65001 } else { spec.codepage }];
         alphabet = if spec.codepage == 0 { Vec::new() } else { crate::cp::common_chars(&cp_set) };
         // (UTF-8 represents whatever the image's own page does)
